@@ -542,7 +542,7 @@ impl MerkleTreeMaker for CpuParallel {
         // Parallel digest calculations
         let mut node_count_on_this_level: usize = leafs_count / 2;
         let mut count_acc: usize = 0;
-        while node_count_on_this_level >= *PARALLELIZATION_CUTOFF {
+        while node_count_on_this_level > 0 && node_count_on_this_level >= *PARALLELIZATION_CUTOFF {
             let mut local_digests: Vec<Digest> = Vec::with_capacity(node_count_on_this_level);
             (0..node_count_on_this_level)
                 .into_par_iter()
